@@ -27,7 +27,8 @@ class SHACLRuleCondition(object):
         return self.cond_shape.focus_nodes(data_graph)
 
     def validate_condition(self, executor, data_graph, focus_node):
-        return self.cond_shape.validate(executor, data_graph, focus=focus_node)
+        # not a top-level validation: severity waivers (allow_infos/allow_warnings) must not apply here
+        return self.cond_shape.validate(executor, data_graph, focus=focus_node, _evaluation_path=[])
 
 
 class SHACLRule(object):
